@@ -15,6 +15,7 @@ Representation of Rust types
 `M α` = a computation that either yields `α` or panics (overflow, index out of range, `unwrap` on `None`, `panic!`).
 -/
 import Yarel.Model.F64Core
+import Yarel.Model.F64
 import Yarel.Model.Index
 namespace Yarel.Rs
 
@@ -104,6 +105,29 @@ def f64Lt (a b : UInt64) : Bool := F64.lt a b
 def f64TruncNe (n : UInt64) : Bool := !F64.isIntegral n
 /-- `n as isize`. -/
 def f64ToIsize (n : UInt64) : Int := F64.toIsize n
+
+/-! arithmetic on `f64` (the verified soft-float) and the `i64` detour of the bit operators -/
+def f64Add (a b : UInt64) : UInt64 := F64.add a b
+def f64Sub (a b : UInt64) : UInt64 := F64.sub a b
+def f64Mul (a b : UInt64) : UInt64 := F64.mul a b
+def f64Div (a b : UInt64) : UInt64 := F64.div a b
+/-- Rust `%` on `f64` (C `fmod`). -/
+def f64Rem (a b : UInt64) : UInt64 := F64.fmod a b
+def f64Neg (a : UInt64) : UInt64 := F64.neg a
+/-- `x as f64` for an `i64`. -/
+def i64ToF64 (i : Int) : UInt64 := F64.ofInt i
+/-- `x as u32` for an `f64` (saturating, NaN to 0). -/
+def f64ToU32 (b : UInt64) : BitVec 32 := BitVec.ofNat 32 (F64.toU32Sat b)
+/-- `&`, `|`, `^`, `!` on `i64` (two's complement). -/
+def i64And (a b : Int) : Int := F64.uToI64 (F64.i64ToU a &&& F64.i64ToU b)
+def i64Or (a b : Int) : Int := F64.uToI64 (F64.i64ToU a ||| F64.i64ToU b)
+def i64Xor (a b : Int) : Int := F64.uToI64 (F64.i64ToU a ^^^ F64.i64ToU b)
+def i64Not (a : Int) : Int := -a - 1
+/-- `i64::checked_shl(n)` / `checked_shr(n)`: `None` when `n >= 64`; `shl` drops the bits shifted out, `shr` is arithmetic. -/
+def checkedShl64 (a : Int) (n : BitVec 32) : Option Int :=
+  if n.toNat < 64 then some (F64.uToI64 (F64.i64ToU a * 2 ^ n.toNat)) else none
+def checkedShr64 (a : Int) (n : BitVec 32) : Option Int :=
+  if n.toNat < 64 then some (a / ((2 ^ n.toNat : Nat) : Int)) else none
 
 /-- `i as f64` for an `isize` / `usize` (round to nearest even above 2^53). -/
 def isizeToF64 (i : Int) : UInt64 := Index.intToBits i
